@@ -438,6 +438,8 @@ def into_field_only_shape():
     decl = (D + "pub struct N1 { #[into(ref)] #[into(skip)] pub a: A, pub b: B }\n" +
             D + "pub struct N2(#[into(skip)] #[into] pub A, pub B, pub B);\n" +
             D + "pub struct N3 { pub a: A, #[into] pub b: B }\n" +
+            D + "pub struct N4 { #[into(ref)] pub a: A, pub b: B }\n" +
+            D + "pub struct N5(#[into(ref_mut(A))] pub A, pub B);\n" +
             D + "#[into]\npub struct W1 { #[into(ref)] #[into(skip)] pub a: A, pub b: B }")
     src = """    #[kani::proof]
     fn no_tuple_conversion_unless_the_struct_asks_for_it() {
@@ -445,6 +447,8 @@ def into_field_only_shape():
         assert!(!has_from!(B, N1) && !has_from!((A, B), N1), "N1: a field has its own conversion and the struct has no attribute: no whole-struct conversion");
         assert!(has_from!(A, N2) && !has_from!((B, B), N2) && !has_from!((A, B, B), N2), "N2: only the field's own conversion");
         assert!(has_from!(B, N3) && !has_from!((A, B), N3), "N3: only the field's own conversion");
+        assert!(has_from!(&'static A, &'static N4) && !has_from!((A, B), N4) && !has_from!((&'static A, &'static B), &'static N4), "N4: a reference-only field conversion suppresses the whole-struct conversion as well");
+        assert!(has_from!(&'static mut A, &'static mut N5) && !has_from!((A, B), N5), "N5: ref_mut(Ty) on a field, no struct attribute");
         assert!(has_from!(B, W1) && has_from!(&'static A, &'static W1) && !has_from!((A, B), W1), "W1: with a struct-level #[into] the tuple of the non-skipped fields exists");
         let a = A(kani::any());
         let b = B(kani::any());
